@@ -49,7 +49,10 @@ func hxs(s string) string { return hx([]byte(s)) }
 // ---------------------------------------------------------------- running a session in a child
 
 func runSession(s *Session) {
-	in, _ := json.Marshal(Session{API: s.API, Mode: s.Mode, Items: s.Items})
+	in, _ := json.Marshal(Session{API: s.API, Mode: s.Mode, Items: s.Items, TmpDir: s.TmpDir})
+	if s.TmpDir != "" {
+		defer os.RemoveAll(s.TmpDir)
+	}
 	cmd := exec.Command(os.Args[0], "session")
 	cmd.Stdin = bytes.NewReader(in)
 	var stderr bytes.Buffer
@@ -85,6 +88,9 @@ loop:
 				continue
 			}
 			s.Obs = append(s.Obs, o)
+			if o.Stuck {
+				s.Items = s.Items[:len(s.Obs)]
+			}
 		case <-watchdog:
 			hung = true
 			_ = cmd.Process.Kill()
@@ -220,7 +226,9 @@ func (s Session) coq() string {
 	for i, it := range s.Items {
 		o := s.Obs[i]
 		var ci string
-		if it.Kind == "http" {
+		if it.Kind == "pub" {
+			ci = "IPub"
+		} else if it.Kind == "http" {
 			if q, ok := routed(it); ok && o.HTTPErr == "" {
 				ci = lib.App("IHttp", q, lib.N(uint64(o.Status)), hx(o.Body))
 			} else {
@@ -300,6 +308,9 @@ func oracle(s Session, idx int, res *lib.Result) {
 	bad := func(i int, clause, detail string) {
 		it := s.Items[i]
 		what := it.Text
+		if it.Kind == "pub" {
+			what = fmt.Sprintf("publish 3 messages on topic %q", it.Path)
+		}
 		if it.Kind == "http" {
 			what = fmt.Sprintf("%s %s chunked=%v content-type=%q body=%q", it.Method, it.Path, it.Chunked, it.CType, trunc(it.Body))
 		}
@@ -311,6 +322,16 @@ func oracle(s Session, idx int, res *lib.Result) {
 	}
 	for i, it := range s.Items {
 		o := s.Obs[i]
+		if o.Stuck {
+			bad(i, "host-stuck-after-command", "after this item the host's rule hubs did not take anything within 3 s: every later destination/stream command or HTTP request would block for ever")
+			continue // the tables could not be read any more
+		}
+		if it.Kind == "pub" {
+			if o.Dests != nil {
+				prev = o
+			}
+			continue
+		}
 		if it.Kind == "http" {
 			switch {
 			case o.Exit:
@@ -479,6 +500,10 @@ func main() {
 		for j, it := range s.Items {
 			o := s.Obs[j]
 			res.Evaluations++
+			if it.Kind == "pub" {
+				res.Count("traffic-published")
+				continue
+			}
 			if it.Kind == "http" {
 				res.Count("http-requests")
 				if it.Chunked {
